@@ -57,6 +57,7 @@ type itr struct {
 	pureFn    map[string]string   // package-level functions translated elsewhere as pure Lean functions
 	reslice   map[string]bool     // functions in which s[:hi] may extend into the hidden capacity
 	curFn     string
+	freeLoops bool // range loops also in functions without a receiver
 	curResT   []string
 	rangeOnce string
 	brkVar    string
@@ -840,6 +841,15 @@ func (t *itr) call(x *ast.CallExpr, pre *[]string, wantValue bool) string {
 			*pre = append(*pre, fmt.Sprintf("let %s ← %s", dv, recvVal))
 			recvVal = dv
 		}
+		for i, a := range x.Args {
+			if _, isPtr := t.typeOf(a).(*types.Pointer); isPtr && strings.HasPrefix(t.leanType(t.typeOf(a)), "Option (") {
+				if _, isAddr := a.(*ast.UnaryExpr); !isAddr && i < len(args) {
+					dv := t.tmp("m")
+					*pre = append(*pre, fmt.Sprintf("let %s ← %s", dv, args[i]))
+					args[i] = dv
+				}
+			}
+		}
 		// regenerated pure Mask methods; Set / Reset mutate the receiver
 		fn := t.maskNS + ".Mask." + sel.Sel.Name
 		callS := fmt.Sprintf("(%s %s %s)", fn, recvVal, strings.Join(args, " "))
@@ -1317,7 +1327,14 @@ func (t *itr) stmts(list []ast.Stmt, ind string) []string {
 		pre := []string{}
 		val := ""
 		if len(x.Results) == 1 {
-			val = t.expr(x.Results[0], &pre)
+			opt := len(t.curResT) == 1 && strings.HasPrefix(t.curResT[0], "Option")
+			if id, ok := x.Results[0].(*ast.Ident); ok && id.Name == "nil" && opt {
+				val = "none"
+			} else if u, ok := x.Results[0].(*ast.UnaryExpr); ok && u.Op == token.AND && opt {
+				val = "(some " + t.expr(u.X, &pre) + ")"
+			} else {
+				val = t.expr(x.Results[0], &pre)
+			}
 		} else if len(x.Results) > 1 {
 			vs := []string{}
 			for i, r := range x.Results {
@@ -1752,7 +1769,7 @@ func (t *itr) stmts(list []ast.Stmt, ind string) []string {
 // body only changes the receiver (through paths) and its own locals. The loop becomes a monadic
 // fold over the indices 0..len(X)-1 (len evaluated once, as in Go); `continue` ends one step.
 func (t *itr) rangeLoop(x *ast.RangeStmt, rest []ast.Stmt, ind string) ([]string, bool) {
-	if t.recv == "" || x.Tok != token.DEFINE || !isSliceT(t.typeOf(x.X)) {
+	if (t.recv == "" && !t.freeLoops) || x.Tok != token.DEFINE || !isSliceT(t.typeOf(x.X)) {
 		return nil, false
 	}
 	for _, e := range t.retExtra {
@@ -2259,12 +2276,12 @@ func genPools(repo string, tiny bool) (string, []string) {
 	t.usesEff = map[string]bool{"World.LoadEntities": true, "World.Reset": true, "World.createEntity": true, "World.createEntities": true,
 		"World.removeArchetype": true, "World.cleanupArchetype": true, "World.cleanupArchetypes": true, "World.RemoveEntity": true,
 		"World.createArchetype": true, "World.setRelation": true, "World.exchangeNoNotify": true, "World.removeEntities": true,
-		"World.newEntitiesNoNotify": true, "World.notifyExchange": true, "World.exchange": true}
+		"World.newEntitiesNoNotify": true, "World.notifyExchange": true, "World.exchange": true, "World.NewEntity": true}
 	t.reslice = map[string]bool{"World.createEntities": true}
 	t.ptrOption = true
 	t.joinIf = map[string]bool{"World.RemoveEntity": true, "World.createEntities": true, "World.createArchetype": true, "World.setRelation": true,
 		"World.exchangeNoNotify": true, "World.getExchangeMask": true, "World.removeEntities": true, "World.newEntitiesNoNotify": true,
-		"World.notifyExchange": true, "World.exchange": true}
+		"World.notifyExchange": true, "World.exchange": true, "World.NewEntity": true}
 	t.worldExt = map[string]string{"World.findOrCreateArchetype": "findOrCreateF"}
 	t.tokens["archetypeData"] = true
 	for k, v := range map[string]string{"archetype.SetPointer": "archSetPointerF", "archNode.CreateArchetype": "nodeCreateArchetypeF",
@@ -2275,7 +2292,7 @@ func genPools(repo string, tiny bool) (string, []string) {
 	t.structs["EntityEvent"] = true
 	t.effExt["archetype.Remove"] = "archRemoveF"
 	t.nilChecks = map[string]bool{}
-	for _, f := range []string{"World.notifyExchange", "World.exchange", "World.newEntitiesNoNotify", "World.removeEntities", "World.getExchangeMask", "World.exchangeNoNotify", "World.createArchetype", "World.setRelation", "World.RemoveEntity", "World.removeArchetype", "World.cleanupArchetype", "World.cleanupArchetypes", "World.createEntity", "World.createEntities", "World.Has", "World.HasUnchecked", "World.Mask",
+	for _, f := range []string{"World.NewEntity", "World.notifyExchange", "World.exchange", "World.newEntitiesNoNotify", "World.removeEntities", "World.getExchangeMask", "World.exchangeNoNotify", "World.createArchetype", "World.setRelation", "World.RemoveEntity", "World.removeArchetype", "World.cleanupArchetype", "World.cleanupArchetypes", "World.createEntity", "World.createEntities", "World.Has", "World.HasUnchecked", "World.Mask",
 		"World.relationError", "World.checkRelation", "World.getRelation", "World.getRelationUnchecked"} {
 		t.nilChecks[f] = true
 	}
@@ -2376,7 +2393,7 @@ func genPools(repo string, tiny bool) (string, []string) {
 		"World.createEntity", "World.createEntities", "World.Has", "World.HasUnchecked", "World.Mask",
 		"World.relationError", "World.checkRelation", "World.getRelation", "World.getRelationUnchecked",
 		"Entity.IsZero", "World.removeArchetype", "World.cleanupArchetype", "World.cleanupArchetypes", "World.RemoveEntity",
-		"World.createArchetype", "World.setRelation", "World.getExchangeMask", "World.exchangeNoNotify", "World.removeEntities", "World.newEntitiesNoNotify", "World.notifyExchange", "World.exchange",
+		"World.createArchetype", "World.setRelation", "World.getExchangeMask", "World.exchangeNoNotify", "World.removeEntities", "World.newEntitiesNoNotify", "World.notifyExchange", "World.exchange", "World.NewEntity",
 	}
 	// which functions need the uninterpreted-function parameters (directly or through a callee)
 	calls := map[string][]string{}
@@ -2437,6 +2454,64 @@ func genPools(repo string, tiny bool) (string, []string) {
 			}
 		}
 	}
+	for _, f := range funcs {
+		for e := range direct[f] {
+			t.needExt[f] = append(t.needExt[f], e)
+		}
+		sort.Strings(t.needExt[f])
+	}
+	for _, f := range funcs {
+		t.emitFunc(&sb, f)
+	}
+	fmt.Fprintf(&sb, "end %s\n", ns)
+	return sb.String(), t.errs
+}
+
+// genDispatch: listener.Dispatch (listener/dispatch.go), with the sub-listeners as values outside the module
+func genDispatch(repo string, tiny bool) (string, []string) {
+	lp, err := loadPkg(repo, "listener", "github.com/mlange-42/arche/listener", tiny)
+	if err != nil {
+		return "", []string{err.Error()}
+	}
+	ns, mns, imp, pns := "ArcheGen.L256", "ArcheGen.M256", "ArcheGen.Pool256", "ArcheGen.P256"
+	if tiny {
+		ns, mns, imp, pns = "ArcheGen.L64", "ArcheGen.M64", "ArcheGen.Pool64", "ArcheGen.P64"
+	}
+	t := &itr{p: lp, structs: map[string]bool{"Dispatch": true, "EntityEvent": true, "Entity": true}, opaque: map[string]bool{}, maskNS: mns}
+	t.ns = ns
+	t.ptrOption = true
+	t.freeLoops = true
+	t.tokens = map[string]bool{"World": true}
+	t.externs = map[string]string{"tok.lstSubs": "GoAny → BitVec 8", "tok.lstComps": "GoAny → Option (" + mns + ".Mask)",
+		"eff.notify": "Ext → GoAny → EntityEvent → Ext × Unit"}
+	t.extOwner = map[string]string{"lstSubsF": "tok.lstSubs", "lstCompsF": "tok.lstComps", "notifyF": "eff.notify"}
+	t.ifaceExt = map[string]string{"Subscriptions": "lstSubsF", "Components": "lstCompsF"}
+	t.effIface = map[string]string{"Notify": "notifyF"}
+	t.effExt = map[string]string{}
+	t.tokExt = map[string]string{}
+	t.fieldExt = map[string]string{}
+	t.pureFn = map[string]string{"subscribes": mns + ".listener.subscribes"}
+	t.usesEff = map[string]bool{"Dispatch.Notify": true}
+	t.nilChecks = map[string]bool{"NewDispatch": true, "Dispatch.AddListener": true, "Dispatch.Notify": true, "Dispatch.Components": true}
+	t.joinIf = map[string]bool{"NewDispatch": true, "Dispatch.AddListener": true, "Dispatch.Notify": true}
+	t.needExt = map[string][]string{}
+	var sb strings.Builder
+	fmt.Fprintf(&sb, "/- GENERATED by /verif/extract (imperative translator) from the Go source of /repo — do not edit. -/\nimport %s\nset_option linter.unusedVariables false\nnamespace %s\nopen ArcheGen %s\n\n", imp, ns, pns)
+	t.emitStruct(&sb, "Dispatch")
+	funcs := []string{"NewDispatch", "Dispatch.AddListener", "Dispatch.Notify", "Dispatch.Subscriptions", "Dispatch.Components"}
+	direct := map[string]map[string]bool{}
+	nerr := len(t.errs)
+	for _, f := range funcs {
+		var tmp strings.Builder
+		t.emitFunc(&tmp, f)
+		direct[f] = map[string]bool{}
+		for ext := range t.extOwner {
+			if strings.Contains(tmp.String(), ext) {
+				direct[f][ext] = true
+			}
+		}
+	}
+	t.errs = t.errs[:nerr]
 	for _, f := range funcs {
 		for e := range direct[f] {
 			t.needExt[f] = append(t.needExt[f], e)
